@@ -1547,9 +1547,17 @@ impl StreamingQueueCompressor {
         // Register contig in collection
         {
             let mut collection = self.collection.lock().unwrap();
-            collection
+            let is_new = collection
                 .register_sample_contig(&sample_name, &contig_name)
                 .context("Failed to register contig")?;
+            if !is_new {
+                // Segments are filed under (sample, contig name, position): the segments of a second
+                // contig of the same name would be written over those of the first one and the
+                // archive would return one contig that equals neither.
+                anyhow::bail!(
+                    "Contig name {contig_name} occurs twice in sample {sample_name}: contig names must be unique within a sample"
+                );
+            }
         }
 
         // Set first sample as reference (multi-file mode)
